@@ -18,7 +18,7 @@ func init() {
 	register(&Property{
 		ID:          "C07",
 		Engines:     []string{"cfg"},
-		Explanation: "Agreement with net/http is a differential property over generated messages and has no static oracle as a whole; six clauses are table / decision / sibling agreement and are decided against net/http's source as loaded for this build (never linked or run): the token alphabets of nbhttp and the WebSocket handshake parser equal httpguts.isTokenTable on all 256 bytes (O1); chunk sizes are parsed with radix 16 and Content-Length with radix 10, both with bit size <= 63 (O2); chunked framing removes Content-Length, trailers are parsed only when chunked, and the trailer names Transfer-Encoding / Trailer / Content-Length are rejected (O3); the connection-persistence decision of ServerProcessor.OnComplete equals net/http's shouldClose: major<1 -> close; 1.0 -> hasClose || !keepAlive; else hasClose (O4); every header / trailer value is captured on the CR edge only, so the four value states agree with net/http's line-end extent (O5); both trailer value states check the delivered name off the declared set (O6). Header value lists own their capacity (O11); pooled objects are not recycled from exported methods of their type (O12). All Connection lines are read (O13); names come from http.CanonicalHeaderKey (O14).",
+		Explanation: "Agreement with net/http is a differential property over generated messages and has no static oracle as a whole; six clauses are table / decision / sibling agreement and are decided against net/http's source as loaded for this build (never linked or run): the token alphabets of nbhttp and the WebSocket handshake parser equal httpguts.isTokenTable on all 256 bytes (O1); chunk sizes are parsed with radix 16 and Content-Length with radix 10, both with bit size <= 63 (O2); chunked framing removes Content-Length, trailers are parsed only when chunked, and the trailer names Transfer-Encoding / Trailer / Content-Length are rejected (O3); the connection-persistence decision of ServerProcessor.OnComplete equals net/http's shouldClose: major<1 -> close; 1.0 -> hasClose || !keepAlive; else hasClose (O4); every header / trailer value is captured on the CR edge only, so the four value states agree with net/http's line-end extent (O5); both trailer value states check the delivered name off the declared set (O6). Header value lists own their capacity (O11); pooled objects are not recycled from exported methods of their type (O12). All Connection lines are read (O13); names come from http.CanonicalHeaderKey (O14). HEAD responses end at the head: method record from Do to the no-body decision, consumed in order (O17); a method is any token, reported as sent (O18).",
 		NotCovered:  "everything else in the statement: header multimap, body bytes, optional whitespace around values (excluded by the property), message boundaries",
 		Run:         runC07,
 	})
